@@ -108,14 +108,30 @@ def finish_worker(ctx):
 
 # ================================================================ model =====
 
+INTEROP_NAMES = ('interop', 'root/interop', 'root/pg_interop')
+NSCLASS = 'cim_namespace'
+
+
+REF = 'ref!'
+
+
+def is_refview(x):
+    return isinstance(x, tuple) and len(x) == 5 and x[0] == REF
+
+
 def canon(v):
-    """Canonical key value: python equality of numbers, exact strings."""
+    """Canonical key value: python equality of numbers, exact strings;
+    references by namespace / class / key names without regard to case."""
     if isinstance(v, (bool, int)):
         return ('n', int(v))
     if isinstance(v, CIMDateTime):
         return ('d', str(v))
     if isinstance(v, str):
         return ('s', str(v))
+    if isinstance(v, CIMInstanceName):
+        return (REF, v.namespace.lower() if v.namespace is not None
+                else None, v.classname.lower(), keyset(v.keybindings),
+                v.host.lower() if v.host else None)
     return ('o', repr(v))
 
 
@@ -124,7 +140,10 @@ def keyset(keybindings):
 
 
 def pview(p):
-    """What the model keeps of a property: type, arrayness, exact value."""
+    """What the model keeps of a property: type, arrayness, exact value
+    (reference values: canonical path)."""
+    if isinstance(p.value, CIMInstanceName):
+        return (p.type, p.is_array, canon(p.value))
     return (p.type, p.is_array, fp(p.value))
 
 
@@ -132,41 +151,71 @@ class Expect:
     """Model answer for one call.  mand/opt: {status code: rule label} of the
     rejection rules that apply (mandatory) or that the implementation may
     apply (optional).  apply(): state change on success.  result: expected
-    return value in model terms."""
+    return value in model terms.  kind: which part of the documented
+    behaviour decides ('' plain map, 'assoc', 'cim_namespace').  group: namespace keys whose content the call may
+    touch.  unspecified: the documentation does not say what happens."""
 
     def __init__(self):
         self.mand = OrderedDict()
         self.opt = OrderedDict()
         self.apply = None
         self.result = None
+        self.kind = ''
+        self.group = None
+        self.unspecified = False
+        self.newns = None
 
     def label(self):
         return '|'.join(sorted(self.mand)) or 'OK'
 
     def rule(self):
-        return '+'.join(sorted(set(self.mand.values()))) or 'none'
+        return '+'.join(sorted(set(self.mand.values()))) or self.kind or 'none'
 
 
 class Entry:
-    __slots__ = ('cls', 'keys', 'props')
+    __slots__ = ('cls', 'keys', 'props', 'group')
 
-    def __init__(self, cls, keys, props):
+    def __init__(self, cls, keys, props, group=None):
         self.cls = cls        # lower creation class name
         self.keys = keys      # frozenset((lname, canon))
         self.props = props    # lower name -> (type, is_array, fp(value))
+        self.group = group    # association: frozenset of namespace keys
+                              # holding the copies of this instance
+
+    def keyval(self, lname):
+        for n, c in self.keys:
+            if n == lname:
+                return c[1]
+        return None
 
 
 class Model:
-    """Reference map (namespace, creation class, keybindings) -> properties."""
+    """Reference map (namespace, creation class, keybindings) -> properties,
+    plus the two documented extensions of the mock server on top of the
+    plain map: an association instance is kept in the target namespace and
+    in every namespace its reference properties name (InstanceWriteProvider
+    .create/modify_multi_namespace_instance), and - if the namespace
+    provider is installed - the CIM_Namespace instances of the Interop
+    namespace mirror the set of namespaces (CIMNamespaceProvider)."""
 
     def __init__(self, schema):
         self.s = schema
         self.default_ns = schema.namespaces[0]
         self.data = {k: {} for k in schema.ns_classes}
+        self.interop = schema.interop.strip('/').lower() \
+            if schema.interop else None
 
     # ---- shared rules ----------------------------------------------------
+    def nskey(self, nsname):
+        """Key of an existing namespace (static or created through the
+        namespace provider), or None."""
+        if nsname is None:
+            return None
+        k = nsname.strip('/').lower()
+        return k if k in self.data else None
+
     def _ns(self, e, nsname):
-        nsk = self.s.ns_key(nsname if nsname is not None else self.default_ns)
+        nsk = self.nskey(nsname if nsname is not None else self.default_ns)
         if nsk is None:
             # INVALID_CLASS / NOT_FOUND are defined (DSP0200) for an
             # existing namespace resp. an existing class, so they do not
@@ -174,7 +223,18 @@ class Model:
             e.mand['INVALID_NAMESPACE'] = 'unknown-namespace'
         return nsk
 
-    def _prop_problems(self, cname, inst):
+    def is_nsclass(self, nsk, cname):
+        return self.interop is not None and nsk == self.interop and \
+            cname.lower() == NSCLASS
+
+    def _emb_ok(self, nsk, cname, declared):
+        """cname exists in the namespace and is declared or a subclass."""
+        if not self.s.has_class(nsk, cname):
+            return False
+        return any(a.name.lower() == declared.lower()
+                   for a in self.s.ancestors(cname))
+
+    def _prop_problems(self, nsk, cname, inst):
         exposed = self.s.exposed(cname)
         out = []
         for p in inst.properties.values():
@@ -185,9 +245,33 @@ class Model:
                 out.append((p, 'wrong-type'))
             elif p.is_array != d.is_array:
                 out.append((p, 'wrong-arrayness'))
-            elif isinstance(p.value, (CIMInstance, CIMClass)):
+            elif isinstance(p.value, CIMClass):
                 out.append((p, 'embedded-object-undeclared'))
+            elif isinstance(p.value, CIMInstance):
+                if d.embedded is None:
+                    out.append((p, 'embedded-object-undeclared'))
+                elif not self._emb_ok(nsk, p.value.classname, d.embedded):
+                    out.append((p, 'embedded-instance-wrong-class'))
         return out
+
+    def endpoint_exists(self, ref):
+        """The reference names an instance that exists (documented:
+        'reference properties must define existing end-point paths'; host
+        names are documented as not allowed)."""
+        if ref.namespace is None or ref.host is not None:
+            return False
+        nsk = self.nskey(ref.namespace)
+        if nsk is None:
+            return False
+        return (ref.classname.lower(), keyset(ref.keybindings)) in \
+            self.data[nsk]
+
+    def copies(self, nsk, ent):
+        """The entries that are copies of one association instance."""
+        if not ent.group:
+            return [ent]
+        return [self.data[g][(ent.cls, ent.keys)] for g in sorted(ent.group)
+                if (ent.cls, ent.keys) in self.data.get(g, {})]
 
     # ---- operations ------------------------------------------------------
     def create(self, inst, nsname):
@@ -199,7 +283,9 @@ class Model:
             e.mand['INVALID_CLASS'] = 'unknown-class'
             return e
         cl = inst.classname.lower()
-        for _p, why in self._prop_problems(cl, inst):
+        cdef = self.s.classes[cl]
+        exposed = self.s.exposed(cl)
+        for _p, why in self._prop_problems(nsk, cl, inst):
             e.mand['INVALID_PARAMETER'] = why
         kb = {}
         key_ok = True
@@ -213,15 +299,64 @@ class Model:
                 key_ok = False
             else:
                 kb[k.name] = p.value
+        props = OrderedDict((p.name.lower(), pview(p))
+                            for p in inst.properties.values())
+        group = {nsk}
+        if cdef.assoc:
+            e.kind = 'assoc'
+            for p in inst.properties.values():
+                d = exposed.get(p.name.lower())
+                if d is None or d.type != 'reference' or \
+                        not isinstance(p.value, CIMInstanceName):
+                    continue
+                if not self.endpoint_exists(p.value):
+                    e.mand['INVALID_PARAMETER'] = 'assoc-endpoint-missing'
+                else:
+                    group.add(self.nskey(p.value.namespace))
+            for g in group:
+                if not self.s.has_class(g, cl):
+                    e.mand['INVALID_CLASS'] = \
+                        'assoc-class-missing-in-referenced-namespace'
+        e.group = sorted(group)
+        if self.is_nsclass(nsk, cl):
+            e.kind = NSCLASS
+            ccn = inst.properties.get('CreationClassName')
+            if ccn is not None and isinstance(ccn.value, str) and \
+                    ccn.value.lower() != cl:
+                e.mand['INVALID_PARAMETER'] = 'creationclassname-mismatch'
+            name = inst.properties.get('Name')
+            if name is not None and isinstance(name.value, str) and \
+                    name.type == 'string':
+                stripped = name.value.strip('/')
+                kb['Name'] = stripped
+                props['name'] = ('string', False, fp(stripped))
+                nk = stripped.lower()
+                if nk in self.data:
+                    if any(x.cls == NSCLASS and
+                           (x.keyval('name') or '').lower() == nk
+                           for x in self.data[nsk].values()):
+                        # one namespace, one CIM_Namespace instance
+                        e.mand['INVALID_PARAMETER'] = \
+                            'namespace-already-represented'
+                        e.opt['ALREADY_EXISTS'] = \
+                            'namespace-already-represented'
+                elif nk in INTEROP_NAMES:
+                    e.mand['ALREADY_EXISTS'] = 'second-interop-namespace'
+                else:
+                    e.newns = nk
         if key_ok:
             ks = keyset(kb)
-            if (cl, ks) in self.data[nsk]:
-                e.mand['ALREADY_EXISTS'] = 'duplicate'
-            props = OrderedDict((p.name.lower(), pview(p))
-                                for p in inst.properties.values())
+            for g in group:
+                if (cl, ks) in self.data[g]:
+                    e.mand['ALREADY_EXISTS'] = 'duplicate'
+            grp = frozenset(group) if cdef.assoc else None
 
             def apply():
-                self.data[nsk][(cl, ks)] = Entry(cl, ks, props)
+                for g in group:
+                    self.data[g][(cl, ks)] = Entry(cl, ks, OrderedDict(props),
+                                                   grp)
+                if e.newns is not None:
+                    self.data[e.newns] = {}
             e.apply = apply
             e.result = (nsk, cl, ks)
         return e
@@ -238,7 +373,25 @@ class Model:
                                   keyset(path.keybindings)))
         if ent is None:
             e.mand['NOT_FOUND'] = 'no-such-instance'
+        elif ent.group:
+            e.kind = 'assoc'
+            e.group = sorted(ent.group | {nsk})
+        elif self.is_nsclass(nsk, ent.cls):
+            e.kind = NSCLASS
         return nsk, ent
+
+    def _touched(self, nsk, ent, updates=None):
+        """Namespaces a Modify/Delete through namespace nsk works on: nsk
+        and those named by the (updated) reference properties."""
+        out = {nsk}
+        props = dict(ent.props)
+        props.update(updates or {})
+        for ln, d in self.s.exposed(ent.cls).items():
+            v = props.get(ln)
+            if d.type == 'reference' and v is not None and \
+                    is_refview(v[2]) and v[2][1] in self.data:
+                out.add(v[2][1])
+        return out
 
     def modify(self, inst, plist):
         e = Expect()
@@ -264,7 +417,7 @@ class Model:
                     e.mand['INVALID_PARAMETER'] = 'propertylist-undeclared'
                 elif pn.lower() not in pl:
                     pl.append(pn.lower())
-        bad = {id(p): why for p, why in self._prop_problems(cl, inst)}
+        bad = {id(p): why for p, why in self._prop_problems(nsk, cl, inst)}
         given = {}
         for p in inst.properties.values():
             ln = p.name.lower()
@@ -288,26 +441,93 @@ class Model:
                     # the key alone, are both faithful
                     e.opt['INVALID_PARAMETER'] = \
                         'key-reset-by-propertylist'
-        if ent is not None:
-            def apply():
-                if pl is None:
-                    for ln, p in given.items():
-                        ent.props[ln] = pview(p)
-                else:
-                    for ln in pl:
-                        if ln in given:
-                            ent.props[ln] = pview(given[ln])
-                        elif not exposed[ln].key:
-                            d = exposed[ln]
-                            ent.props[ln] = (d.type, d.is_array,
-                                             fp(d.typed_default()))
-            e.apply = apply
+        if ent is None:
+            return e
+        # the effective changes: lower name -> new view
+        updates = OrderedDict()
+        if pl is None:
+            for ln, p in given.items():
+                updates[ln] = pview(p)
+        else:
+            for ln in pl:
+                if ln in given:
+                    updates[ln] = pview(given[ln])
+                elif not exposed[ln].key:
+                    d = exposed[ln]
+                    updates[ln] = (d.type, d.is_array, fp(d.typed_default()))
+        targets = [ent]
+        if self.s.classes[cl].assoc:
+            for ln, v in updates.items():
+                d = exposed[ln]
+                if d.type != 'reference' or v[0] != 'reference' or \
+                        (ln in given and id(given[ln]) in bad):
+                    continue
+                if not is_refview(v[2]):
+                    # documented for the default provider: a reference of a
+                    # stored association cannot be set to NULL
+                    e.mand['INVALID_PARAMETER'] = 'assoc-reference-null'
+                elif v != ent.props.get(ln) and \
+                        not self.endpoint_exists(given[ln].value):
+                    e.mand['INVALID_PARAMETER'] = 'assoc-endpoint-missing'
+            touched = self._touched(nsk, ent, updates)
+            have = {g for g in ent.group
+                    if (ent.cls, ent.keys) in self.data.get(g, {})}
+            if not touched <= have:
+                # "validate that the association already exists in all
+                # namespaces defined in the reference properties"
+                e.mand['NOT_FOUND'] = 'assoc-copy-missing-in-referenced-' \
+                                      'namespace'
+                e.opt['INVALID_PARAMETER'] = e.mand['NOT_FOUND']
+            elif touched != have:
+                # copies in namespaces no reference names any more: not
+                # documented
+                e.unspecified = True
+            targets = self.copies(nsk, ent)
+        if self.is_nsclass(nsk, cl):
+            e.mand['NOT_SUPPORTED'] = 'cim_namespace-modify'
+            return e
+
+        def apply():
+            for t in targets:
+                for ln, v in updates.items():
+                    t.props[ln] = v
+        e.apply = apply
         return e
 
     def delete(self, path):
         e = Expect()
         nsk, ent = self._locate(e, path)
-        if ent is not None:
+        if ent is None:
+            return e
+        if ent.group:
+            have = {g for g in ent.group
+                    if (ent.cls, ent.keys) in self.data.get(g, {})}
+            if self._touched(nsk, ent) != have:
+                e.unspecified = True
+
+            def apply():
+                for g in have:
+                    self.data[g].pop((ent.cls, ent.keys))
+            e.apply = apply
+        elif self.is_nsclass(nsk, ent.cls):
+            nk = (ent.keyval('name') or '').strip('/').lower()
+            if nk in INTEROP_NAMES:
+                e.mand['INVALID_PARAMETER'] = 'cim_namespace-of-interop'
+            elif nk not in self.data:
+                e.unspecified = True
+            elif nk in self.s.ns_classes or self.data[nk]:
+                e.mand['NAMESPACE_NOT_EMPTY'] = 'namespace-not-empty'
+            elif sum(1 for x in self.data[nsk].values()
+                     if x.cls == NSCLASS and
+                     (x.keyval('name') or '').lower() == nk) > 1:
+                e.unspecified = True
+
+            def apply():
+                self.data[nsk].pop((ent.cls, ent.keys))
+                self.data.pop(nk, None)
+            e.apply = apply
+            e.newns = nk
+        else:
             e.apply = lambda: self.data[nsk].pop((ent.cls, ent.keys))
         return e
 
@@ -368,11 +588,7 @@ def call(fn):
 
 def mock_frame(exc):
     """module.function of the innermost pywbem_mock frame of a traceback."""
-    import traceback
-    found = None
-    for fs in traceback.extract_tb(exc.__traceback__):
-        if '/pywbem_mock/' in fs.filename:
-            found = '%s.%s' % (fs.filename.rsplit('/', 1)[-1][:-3], fs.name)
+    found = repogen.mock_frame(exc)
     if found is None:
         fr = repo_frame(exc)
         found = '%s.%s' % (fr[2][:-3], fr[0]) if fr else '<outside-repo>'
@@ -406,8 +622,14 @@ def explain(want, got):
     return out[:6]
 
 
+def fmt_val(c):
+    if is_refview(c):
+        return '%s:%s' % (c[1], fmt_key((c[2], c[3])))
+    return repr(c[1])
+
+
 def fmt_key(k):
-    return '%s{%s}' % (k[0], ','.join('%s=%r' % (n, c[1])
+    return '%s{%s}' % (k[0], ','.join('%s=%s' % (n, fmt_val(c))
                                       for n, c in sorted(k[1])))
 
 
@@ -432,6 +654,42 @@ class History:
         # not mask everything else, only every fourth history mutates the
         # returned path in place.
         self.poison_create_out = rng.random() < 0.25
+        # Hostile input classes that hit known mechanisms which wreck the
+        # store are enabled per history, for the same reason.
+        self.recase_refs = rng.random() < 0.4     # reference values re-cased
+        self.ns_incomplete = rng.random() < 0.5   # CIM_Namespace lacking keys
+        self.ns_twins = rng.random() < 0.5        # 2nd CIM_Namespace of a ns
+        self.n_assoc_ok = self.n_multins_ok = 0
+        if schema.interop is not None:
+            self.harvest_namespace_instances()
+
+    def harvest_namespace_instances(self):
+        """The CIM_Namespace instances the provider creates when it is
+        installed are the model's initial content of the Interop namespace
+        (taken as observed; one per namespace is asserted)."""
+        s = self.s
+        oc, val = call(lambda: self.conn.EnumerateInstances(
+            'CIM_Namespace', namespace=s.interop))
+        if oc != 'OK':
+            raise val
+        nsk = s.ns_key(s.interop)
+        for inst in val:
+            kv = {k.name: inst.properties[k.name].value
+                  for k in s.keys(NSCLASS)}
+            ks = keyset(kv)
+            self.model.data[nsk][(NSCLASS, ks)] = Entry(
+                NSCLASS, ks, OrderedDict(
+                    (p.name.lower(), pview(p))
+                    for p in inst.properties.values()))
+            self.known.append((s.interop, 'CIM_Namespace', kv))
+        have = sorted(str(k[2]['Name']).lower() for k in self.known)
+        want = sorted(ns.strip('/').lower() for ns in s.namespaces)
+        if have != want:
+            self.ctx.violation(
+                'store.setup.namespace-provider.instances',
+                'after install_namespace_provider the CIM_Namespace '
+                'instances name %r, the namespaces are %r' % (have, want),
+                self.detail())
 
     def detail(self, extra=None):
         d = {'schema': self.s.describe(), 'history': self.log[-40:]}
@@ -468,7 +726,28 @@ class History:
         for ns in self.s.namespaces:
             if ns.strip('/').lower() == nsk:
                 return ns
+        if nsk in self.model.data:
+            return nsk
         raise KeyError(nsk)
+
+    def verify_namespace(self, name, key, what):
+        """The namespace exists exactly if the model says so (probe: an
+        enumeration in it; INVALID_NAMESPACE tells)."""
+        if self.diverged or not isinstance(name, str) or \
+                not name.strip('/'):
+            return
+        oc, _val = call(lambda: self.conn.EnumerateInstanceNames(
+            'CIM_Namespace', namespace=name))
+        self.ctx.evaluated()
+        server = oc != 'INVALID_NAMESPACE'
+        model = self.model.nskey(name) is not None
+        if server != model:
+            self.ctx.violation(
+                key, '%s: namespace %r %s on the server, the model says it '
+                '%s' % (what, name, 'exists' if server else 'does not exist',
+                        'exists' if model else 'does not exist'),
+                self.detail())
+            self.diverged = True
 
     def verify(self, nsk, cname, key, what, names=False):
         """Compare the subtree of cname's root class in nsk with the model."""
@@ -570,10 +849,16 @@ def ns_variant(rng, ns):
     return v
 
 
+NEW_NS_POOL = ['root/new', 'New1', 'a/b/c', 'zz', 'root/cimv2/sub']
+
+
 def pick_ns(h, rng, allow_none=True):
     """(namespace argument, is it meant to exist)"""
     s = h.s
     r = rng.random()
+    if s.interop is not None and rng.random() < 0.12:
+        # a namespace the namespace provider may have created or removed
+        return ns_variant(rng, rng.choice(NEW_NS_POOL)), None
     if r < 0.07:
         base = rng.choice(s.namespaces)
         return rng.choice(['nope', 'root/nope', base + 'x', base + '/x',
@@ -612,6 +897,130 @@ def make_prop(rng, name, t, is_array, value):
                        is_array=is_array)
 
 
+def copy_keyvalue(v):
+    return v.copy() if isinstance(v, CIMInstanceName) else v
+
+
+def copy_kv(kv):
+    return {k: copy_keyvalue(v) for k, v in kv.items()}
+
+
+def recase_ref(rng, ref):
+    """The same instance path, names in another lexical case."""
+    return CIMInstanceName(
+        repogen.vcase(rng, ref.classname),
+        OrderedDict((repogen.vcase(rng, k), copy_keyvalue(v))
+                    for k, v in ref.keybindings.items()),
+        namespace=repogen.vcase(rng, ref.namespace), host=ref.host)
+
+
+def endpoints(h, refclass, nsks=None):
+    """Known (possibly deleted meanwhile) instances of refclass or of a
+    subclass, optionally only those in the namespaces nsks."""
+    s = h.s
+    want = refclass.lower()
+    out = []
+    for k in h.known:
+        if any(a.name.lower() == want for a in s.ancestors(k[1])) and \
+                (nsks is None or s.ns_key(k[0]) in nsks):
+            out.append(k)
+    return out
+
+
+def gen_ref(h, rng, d, nsks=None, assoc=None, p_missing=0.08):
+    """A value for reference property d: path of a known instance (with
+    namespace), sometimes re-cased, sometimes of an instance that does not
+    exist."""
+    s = h.s
+    cands = endpoints(h, d.ref_class, nsks) if nsks else []
+    if not cands or rng.random() < 0.1:
+        cands = endpoints(h, d.ref_class)
+        if assoc is not None and rng.random() < 0.85:
+            # where the association class exists as well
+            there = [k for k in cands
+                     if s.has_class(s.ns_key(k[0]), assoc.name)]
+            cands = there or cands
+    if not cands:
+        h.ctx.count('ref-no-endpoint-known')
+        return CIMInstanceName(d.ref_class, {'k': 'c10nosuch'},
+                               namespace=rng.choice(s.namespaces))
+    ns, cname, kv = rng.choice(cands)
+    ref = CIMInstanceName(cname, OrderedDict(copy_kv(kv)),
+                          namespace=ns.strip('/'))
+    r = rng.random()
+    if r < p_missing:
+        h.ctx.count('ref-endpoint-missing')
+        if r < p_missing / 4:
+            ref.namespace = 'nope/c10'
+        elif r < p_missing / 2 and s.cls(cname).superclass:
+            ref.classname = s.cls(cname).superclass   # not the creation class
+        else:
+            k = rng.choice(sorted(ref.keybindings))
+            kd = s.exposed(cname)[k.lower()]
+            for _ in range(5):
+                v = repogen.key_value(rng, kd.type)
+                if canon(v) != canon(ref.keybindings[k]):
+                    ref.keybindings[k] = v
+                    break
+    if h.recase_refs and rng.random() < 0.6:
+        ref = recase_ref(rng, ref)
+        h.ctx.count('ref-recased')
+    return ref
+
+
+def fresh_key_value(h, rng, k, nsks=None, assoc=None):
+    if k.type == 'reference':
+        return gen_ref(h, rng, k, nsks, assoc)
+    return repogen.key_value(rng, k.type)
+
+
+def gen_embedded(h, rng, d, nsk):
+    """A value for a string property declared EmbeddedInstance(d.embedded):
+    instance of that class / of a subclass / of an unrelated class / of a
+    class that does not exist (in this namespace), NULL, a plain string."""
+    s = h.s
+    r = rng.random()
+    if r < 0.1:
+        return None
+    if r < 0.18:
+        return cimgen.scalar(rng, 'string')
+    subs = [c.name for c in s.classes.values()
+            if any(a.name.lower() == d.embedded.lower()
+                   for a in s.ancestors(c.name))]
+    if r < 0.68:
+        cname = rng.choice(subs)
+        h.ctx.count('embedded-declared-or-subclass')
+    elif r < 0.84:
+        others = [c.name for c in s.classes.values() if c.name not in subs]
+        cname = rng.choice(others or ['CIM_Nope'])
+        h.ctx.count('embedded-unrelated-class')
+    else:
+        cname = rng.choice(['CIM_Nope', d.embedded + 'x', '_' + d.embedded])
+        h.ctx.count('embedded-unknown-class')
+    cdef = s.cls(cname)
+    props = []
+    if cdef is not None:
+        for x in s.exposed(cdef.name).values():
+            if x.type != 'reference' and not x.embedded and \
+                    rng.random() < 0.5:
+                props.append(make_prop(rng, x.name, x.type, x.is_array,
+                                       nonkey_value(rng, x)))
+    else:
+        props.append(CIMProperty('a', 'b'))
+    return CIMInstance(repogen.vcase(rng, cname), properties=props)
+
+
+def nonkey_prop(h, rng, d, nsk, nsks=None, assoc=None):
+    """A property object for the non-key property d."""
+    if d.type == 'reference':
+        v = None if rng.random() < 0.08 else gen_ref(h, rng, d, nsks, assoc)
+        return make_prop(rng, d.name, 'reference', False, v)
+    if d.embedded:
+        return make_prop(rng, d.name, 'string', False,
+                         gen_embedded(h, rng, d, nsk))
+    return make_prop(rng, d.name, d.type, d.is_array, nonkey_value(rng, d))
+
+
 def faulty_props(rng, exposed, props):
     """Append at most one invalid property; returns a label or None."""
     r = rng.random()
@@ -628,15 +1037,17 @@ def faulty_props(rng, exposed, props):
         props.append(make_prop(rng, d.name, t, d.is_array,
                                cimgen.value(rng, t, d.is_array, null=0.1)))
         return 'wrong-type'
-    if r < 0.19 and decl:
-        d = rng.choice(decl)
+    nonref = [x for x in decl if x.type != 'reference']
+    if r < 0.19 and nonref:
+        d = rng.choice(nonref)
         props[:] = [p for p in props if p.name.lower() != d.name.lower()]
         props.append(make_prop(rng, d.name, d.type, not d.is_array,
                                cimgen.value(rng, d.type, not d.is_array,
                                             null=0.1)))
         return 'wrong-arrayness'
     if r < 0.22:
-        strs = [d for d in decl if d.type == 'string' and not d.is_array]
+        strs = [d for d in decl if d.type == 'string' and not d.is_array
+                and not d.embedded]
         if strs:
             d = rng.choice(strs)
             props[:] = [p for p in props if p.name.lower() != d.name.lower()]
@@ -654,14 +1065,82 @@ def key_values_for(h, rng, cdef_name):
     root = s.root_of(cdef_name).name.lower()
     same = [k for k in h.known if s.root_of(k[1]).name.lower() == root]
     if same and rng.random() < 0.35:
-        return dict(rng.choice(same)[2])
-    return {k.name: repogen.key_value(rng, k.type) for k in keys}
+        return copy_kv(rng.choice(same)[2])
+    cdef = s.cls(cdef_name)
+    return {k.name: fresh_key_value(h, rng, k, assoc=cdef) for k in keys}
+
+
+def gen_create_namespace(h, rng, nsarg):
+    """A CIM_Namespace instance for the namespace provider: complete,
+    lacking keys, with a CreationClassName that does not match, for a
+    namespace that is represented already."""
+    s = h.s
+    note = []
+    mine = [k for k in h.known if k[1].lower() == NSCLASS]
+    kv = copy_kv(rng.choice(mine)[2]) if mine else {
+        k.name: 'x' for k in s.keys(NSCLASS)}
+    r = rng.random()
+    if r < 0.55:
+        kv['Name'] = rng.choice(NEW_NS_POOL)
+    elif r < 0.65:
+        kv['Name'] = rng.choice(['interop', 'root/interop', 'root/PG_Interop'])
+        note.append('interop-name')
+    elif r < 0.8:
+        kv['Name'] = rng.choice(s.namespaces)
+    if rng.random() < 0.4:
+        kv['Name'] = ns_variant(rng, kv['Name'])
+    if h.ns_twins and rng.random() < 0.3:
+        # other keys differ: a second instance for the same namespace?
+        k = rng.choice(['SystemName', 'ObjectManagerName',
+                        'SystemCreationClassName'])
+        kv[k] = str(kv[k]) + rng.choice(['2', 'x'])
+        note.append('other-key-differs')
+    r = rng.random()
+    if r < 0.1:
+        kv['CreationClassName'] = rng.choice(['CIM_Wrong', 'CIM_Namespac', ''])
+        note.append('creationclassname-mismatch')
+    elif r < 0.25:
+        kv['CreationClassName'] = repogen.vcase(rng, 'CIM_Namespace')
+    props = [make_prop(rng, k, 'string', False, v) for k, v in kv.items()]
+    r = rng.random()
+    if r < 0.22 and h.ns_incomplete:
+        victim = rng.choice([p for p in props if p.name.lower() not in
+                             ('name', 'creationclassname')])
+        if r < 0.14:
+            props.remove(victim)
+            note.append('missing-key')
+        else:
+            victim.value = None
+            note.append('null-key')
+    elif r < 0.32:
+        victim = rng.choice([p for p in props if p.name.lower() in
+                             ('name', 'creationclassname')])
+        if r < 0.27:
+            props.remove(victim)
+            note.append('missing-required')
+        else:
+            victim.value = None
+            note.append('null-required')
+    exposed = s.exposed(NSCLASS)
+    for d in exposed.values():
+        if not d.key and rng.random() < 0.3:
+            props.append(make_prop(rng, d.name, d.type, d.is_array,
+                                   nonkey_value(rng, d)))
+    f = faulty_props(rng, exposed, props)
+    if f:
+        note.append(f)
+    rng.shuffle(props)
+    return props, note
 
 
 def gen_create(h, rng):
     s = h.s
     nsarg, _ = pick_ns(h, rng)
     cname = pick_class(h, rng, nsarg)
+    if s.interop is not None and rng.random() < 0.4:
+        cname = repogen.vcase(rng, 'CIM_Namespace')
+        if rng.random() < 0.9:
+            nsarg = ns_variant(rng, s.interop)
     cdef = s.cls(cname)
     props = []
     note = []
@@ -670,16 +1149,29 @@ def gen_create(h, rng):
             t = rng.choice(cimgen.SIMPLE_TYPES)
             props.append(make_prop(rng, 'p_' + cimgen.name(rng, nonascii=0),
                                    t, False, cimgen.scalar(rng, t)))
+    elif cdef.name.lower() == NSCLASS and s.interop is not None:
+        props, note = gen_create_namespace(h, rng, nsarg)
     else:
         exposed = s.exposed(cdef.name)
         kv = key_values_for(h, rng, cdef.name)
         keys = s.keys(cdef.name)
+        nsks = None
+        if cdef.assoc:
+            # namespaces of the key references; mostly the instance is
+            # created in one of them and further references stay there
+            refns = [v.namespace for v in kv.values()
+                     if isinstance(v, CIMInstanceName) and v.namespace]
+            nsks = {s.ns_key(x) for x in refns} - {None}
+            if refns and rng.random() < 0.85:
+                nsarg = ns_variant(rng, rng.choice(refns)) \
+                    if h.recase_refs else rng.choice(refns)
+        nsk = s.ns_key(nsarg if nsarg is not None else s.namespaces[0])
         r = rng.random()
         victim = rng.choice(keys).name if r < 0.09 else None
         for k in keys:
             v = kv.get(k.name)
             if v is None:
-                v = repogen.key_value(rng, k.type)
+                v = fresh_key_value(h, rng, k, assoc=cdef)
             if k.name == victim:
                 if r < 0.05:
                     note.append('missing-key')
@@ -689,8 +1181,9 @@ def gen_create(h, rng):
             props.append(make_prop(rng, k.name, k.type, False, v))
         for d in exposed.values():
             if not d.key and rng.random() < 0.55:
-                props.append(make_prop(rng, d.name, d.type, d.is_array,
-                                       nonkey_value(rng, d)))
+                props.append(nonkey_prop(
+                    h, rng, d, nsk,
+                    nsks if rng.random() < 0.85 else None, cdef))
         f = faulty_props(rng, exposed, props)
         if f:
             note.append(f)
@@ -723,8 +1216,14 @@ def make_path(h, rng, for_op):
     r = rng.random()
     note = 'known'
     if h.known and r < 0.8:
-        ns, cname, kv = rng.choice(h.known)
-        kv = dict(kv)
+        pool = h.known
+        if rng.random() < 0.35:
+            # prefer what only associations / the namespace provider have
+            special = [k for k in h.known if s.cls(k[1]).assoc or
+                       (s.interop and k[1].lower() == NSCLASS)]
+            pool = special or pool
+        ns, cname, kv = rng.choice(pool)
+        kv = copy_kv(kv)
     else:
         note = 'fresh'
         nsarg, _ = pick_ns(h, rng)
@@ -732,7 +1231,7 @@ def make_path(h, rng, for_op):
         cname = pick_class(h, rng, nsarg)
         cdef = s.cls(cname)
         if cdef is not None:
-            kv = {k.name: repogen.key_value(rng, k.type)
+            kv = {k.name: fresh_key_value(h, rng, k, assoc=cdef)
                   for k in s.keys(cdef.name)}
         else:
             kv = {'k': 'a'}
@@ -743,7 +1242,7 @@ def make_path(h, rng, for_op):
         d = s.exposed(cdef.name).get(k.lower()) if cdef else None
         old = kv[k]
         for _ in range(5):
-            kv[k] = repogen.key_value(rng, d.type) if d else 'zz'
+            kv[k] = fresh_key_value(h, rng, d, assoc=cdef) if d else 'zz'
             if canon(kv[k]) != canon(old):
                 break
         note += '+altered-key'
@@ -779,6 +1278,10 @@ def make_path(h, rng, for_op):
         v = kv[k]
         if isinstance(v, pywbem.CIMInt) and rng.random() < 0.3:
             v = int(v)           # plain python number, documented key form
+        if isinstance(v, CIMInstanceName) and h.recase_refs and \
+                rng.random() < 0.5:
+            v = recase_ref(rng, v)
+            note += '+recased-ref'
         items.append((repogen.vcase(rng, k), v))
     rng.shuffle(items)
     if isinstance(ns, str):
@@ -823,18 +1326,28 @@ def gen_modify(h, rng):
     cname = path.classname
     if cdef is not None:
         exposed = s.exposed(cdef.name)
+        nsk = s.ns_key(path.namespace if path.namespace is not None
+                       else s.namespaces[0])
+        # associations: further references mostly stay in the namespaces
+        # the instance lives in
+        nsks = {s.ns_key(v.namespace) for v in path.keybindings.values()
+                if isinstance(v, CIMInstanceName) and v.namespace} - {None}
         for d in exposed.values():
             if d.key:
                 continue
             if rng.random() < 0.45:
-                props.append(make_prop(rng, d.name, d.type, d.is_array,
-                                       nonkey_value(rng, d)))
+                props.append(nonkey_prop(
+                    h, rng, d, nsk,
+                    nsks if rng.random() < 0.9 else None, cdef))
         r = rng.random()
         if r < 0.3:
             # key properties with the values of the path (allowed)
             for k in s.keys(cdef.name):
                 v = path.keybindings.get(k.name)
-                if v is not None and not isinstance(v, CIMInstanceName):
+                if isinstance(v, CIMInstanceName):
+                    props.append(make_prop(rng, k.name, 'reference', False,
+                                           v.copy()))
+                elif v is not None:
                     try:
                         props.append(make_prop(
                             rng, k.name, k.type, False,
@@ -845,9 +1358,14 @@ def gen_modify(h, rng):
         elif r < 0.4:
             keys = s.keys(cdef.name)
             k = rng.choice(keys)
-            props.append(make_prop(rng, k.name, k.type, False,
-                                   repogen.key_value(rng, k.type)))
-            notes.append('key-maybe-changed')
+            if rng.random() < 0.25:
+                props.append(make_prop(rng, k.name, k.type, False, None))
+                notes.append('key-null')
+            else:
+                props.append(make_prop(
+                    rng, k.name, k.type, False,
+                    fresh_key_value(h, rng, k, assoc=cdef)))
+                notes.append('key-maybe-changed')
         f = faulty_props(rng, exposed, props)
         if f:
             notes.append(f)
@@ -884,8 +1402,21 @@ def poison_value(rng, p):
             v[0] = None
         else:
             v.append(None)
+    elif isinstance(v, CIMInstanceName):
+        # the reference object itself, then what it contains
+        for k in list(v.keybindings):
+            v.keybindings[k] = 'POISON'
+        v.classname = 'Poisoned_Ref'
+        v.namespace = 'poisoned/ref'
+    elif isinstance(v, CIMInstance):
+        for q in list(v.properties.values()):
+            if q.type in cimgen.SIMPLE_TYPES and not q.is_array:
+                q.value = cimgen.scalar(rng, q.type)
+        v.properties['zz_poison'] = CIMProperty('zz_poison', 'POISON')
+        v.classname = 'Poisoned_Emb'
     try:
-        if p.type in cimgen.SIMPLE_TYPES:
+        if p.type in cimgen.SIMPLE_TYPES and \
+                not isinstance(v, (CIMInstance, CIMClass)):
             p.value = cimgen.value(rng, p.type, p.is_array, null=0.0)
     except (ValueError, TypeError):
         pass
@@ -893,6 +1424,14 @@ def poison_value(rng, p):
 
 def poison_path(rng, path):
     for k in list(path.keybindings):
+        v = path.keybindings[k]
+        if isinstance(v, CIMInstanceName):
+            v.classname = 'Poisoned_Ref'
+            v.namespace = 'poisoned/ref'
+            for kk in list(v.keybindings):
+                v.keybindings[kk] = 'POISON'
+            if rng.random() < 0.5:
+                continue
         path.keybindings[k] = 'POISON'
     path.keybindings['zz_poison'] = 1
     path.classname = 'Poisoned_Class'
@@ -942,10 +1481,13 @@ def step(h, rng, opname):
     model = h.model
     ins, outs = [], []
     affected = None          # (nsk, class name) to re-read
+    probe_ns = None          # namespace whose existence is to be re-checked
 
     if opname == 'Create':
         inst, kwargs, eff, note = gen_create(h, rng)
         exp = model.create(inst, eff)
+        if exp.kind == NSCLASS and 'Name' in inst.properties:
+            probe_ns = inst.properties['Name'].value
         desc = 'CreateInstance(%s%s)%s' % (
             short(inst.tomof().replace('\n', ' '), 300)
             if _printable(inst) else short(repr(inst), 300),
@@ -974,10 +1516,24 @@ def step(h, rng, opname):
                     h.detail())
             else:
                 cdef = s.cls(inst.classname)
-                h.known.append((
-                    h.ns_name(nsk), cdef.name,
-                    {k.name: inst.properties[k.name].value
-                     for k in s.keys(cdef.name)}))
+                kv = copy_kv({k.name: inst.properties[k.name].value
+                              for k in s.keys(cdef.name)})
+                if exp.kind == NSCLASS:
+                    kv['Name'] = kv['Name'].strip('/')
+                    ctx.count('cim_namespace-create-ok')
+                    if exp.newns is not None:
+                        ctx.count('cim_namespace-create-adds-namespace')
+                for g in exp.group:
+                    h.known.append((h.ns_name(g), cdef.name, copy_kv(kv)))
+                if cdef.assoc:
+                    h.n_assoc_ok += 1
+                    ctx.count('assoc-create-ok')
+                    if len(exp.group) > 1:
+                        h.n_multins_ok += 1
+                        ctx.count('assoc-multins-create-ok')
+                if any(isinstance(p.value, CIMInstance)
+                       for p in inst.properties.values()):
+                    ctx.count('embedded-create-ok')
             if h.poison_create_out:
                 outs = [val]
             else:
@@ -985,6 +1541,9 @@ def step(h, rng, opname):
     elif opname == 'Modify':
         mi, plist, notes = gen_modify(h, rng)
         exp = model.modify(mi, plist)
+        if exp.unspecified:
+            ctx.count('skipped-unspecified-modify')
+            return
         kwargs = {}
         if plist is not None or rng.random() < 0.2:
             kwargs['PropertyList'] = plist
@@ -1008,9 +1567,20 @@ def step(h, rng, opname):
             affected = (nsk, mi.path.classname)
         if ok:
             exp.apply()
+            if exp.kind == 'assoc':
+                ctx.count('assoc-multins-modify-ok'
+                          if len(exp.group) > 1 else 'assoc-modify-ok')
+            if any(isinstance(p.value, CIMInstance)
+                   for p in mi.properties.values()):
+                ctx.count('embedded-modify-ok')
     elif opname == 'Delete':
         path, note = make_path(h, rng, 'delete')
         exp = model.delete(path)
+        if exp.unspecified:
+            ctx.count('skipped-unspecified-delete')
+            return
+        if exp.kind == NSCLASS and exp.newns:
+            probe_ns = exp.newns
         desc = 'DeleteInstance(%s) [%s]' % (_pathstr(path), note)
         oc, val = call(lambda: conn.DeleteInstance(path))
         ok = h.judge('DeleteInstance', exp, oc, val, desc)
@@ -1022,6 +1592,9 @@ def step(h, rng, opname):
             affected = (nsk, path.classname)
         if ok:
             exp.apply()
+            if exp.kind:
+                ctx.count((exp.kind + '-multins' if exp.kind == 'assoc' and
+                           len(exp.group) > 1 else exp.kind) + '-delete-ok')
     elif opname == 'Get':
         path, note = make_path(h, rng, 'get')
         plist = gen_plist(h, rng, path.classname, p_none=0.5)
@@ -1145,23 +1718,37 @@ def step(h, rng, opname):
             ctx.count('write-rejected')
         # the state after a write (accepted, rejected or crashed) is the
         # model's state
+        after = 'after-success' if ok else \
+            'after-exception' if oc == 'EXC' else 'after-rejection'
         if affected and not h.diverged:
             special = '.key-reset-by-propertylist' if \
                 'key-reset-by-propertylist' in exp.opt.values() else ''
-            h.verify(affected[0], affected[1],
-                     'store.content.%s.%s%s' % (
-                         op_api, 'after-success' if ok else
-                         'after-exception' if oc == 'EXC' else
-                         'after-rejection', special),
-                     'after %s the store differs from the model' % h.log[-1])
-            if rng.random() < 0.3:
-                h.verify(affected[0], affected[1],
-                         'store.content.%s.%s%s' % (
-                             op_api, 'after-success' if ok else
-                             'after-exception' if oc == 'EXC' else
-                             'after-rejection', special),
-                         'after %s the instance names differ from the model'
-                         % h.log[-1], names=True)
+            if exp.kind:
+                special = '.' + exp.kind
+            # an association instance lives in every namespace its
+            # references name: read all of them
+            where = [(affected[0], '')] + [
+                (g, '.other-namespace') for g in (exp.group or ())
+                if g != affected[0] and s.has_class(g, affected[1])]
+            names_too = rng.random() < 0.3
+            for g, sfx in where:
+                key = 'store.content.%s.%s%s%s' % (op_api, after, special,
+                                                   sfx)
+                h.verify(g, affected[1], key,
+                         'after %s the store%s differs from the model' % (
+                             h.log[-1], ' of namespace %s' % g if sfx else ''))
+                if names_too:
+                    h.verify(g, affected[1], key,
+                             'after %s the instance names%s differ from the '
+                             'model' % (h.log[-1],
+                                        ' in namespace %s' % g if sfx else ''),
+                             names=True)
+                if sfx:
+                    ctx.count('read-other-namespace-after-write')
+        if probe_ns is not None:
+            h.verify_namespace(
+                probe_ns, 'store.namespace.%s.%s' % (op_api, after),
+                'after %s' % h.log[-1])
     # ---- isolation: mutate what went in, re-read; what came out, re-read
     for side, objs in (('in', ins), ('out', outs)):
         objs = [o for o in objs if o is not None]
@@ -1172,12 +1759,15 @@ def step(h, rng, opname):
         h.mutated = True
         ctx.count('mutated-' + side)
         if affected:
-            h.verify(affected[0], affected[1],
-                     'store.isolation.%s.%s' % (op_api, side),
-                     'after the client changed the object(s) %s %s, the '
-                     'server returns different data' % (
-                         'passed to' if side == 'in' else 'returned by',
-                         h.log[-1]))
+            for g in [affected[0]] + [
+                    g for g in (exp.group or ())
+                    if g != affected[0] and s.has_class(g, affected[1])]:
+                h.verify(g, affected[1],
+                         'store.isolation.%s.%s' % (op_api, side),
+                         'after the client changed the object(s) %s %s, the '
+                         'server returns different data' % (
+                             'passed to' if side == 'in' else 'returned by',
+                             h.log[-1]))
             ctx.count('read-after-mutation')
 
 
@@ -1214,7 +1804,17 @@ def pick_op(rng, i, n_known):
 
 
 def run_case(ctx, i, rng):
-    schema = repogen.gen_schema(rng, with_assoc=False)
+    # input classes beyond the plain keyed map: association classes (the
+    # documented copies in every referenced namespace), EmbeddedInstance
+    # properties, the CIM_Namespace provider
+    r = rng.random()
+    mode = 'plain' if r < 0.4 else 'assoc' if r < 0.78 else 'nsprovider'
+    schema = repogen.gen_schema(
+        rng, with_assoc=mode == 'assoc',
+        with_embedded=rng.random() < 0.5,
+        with_nsprovider=mode == 'nsprovider',
+        min_ns=2 if mode == 'assoc' and rng.random() < 0.7 else 1)
+    ctx.cls('mode-' + mode)
     ctx.cls('schema-via-' + schema.via)
     ctx.cls('namespaces-%d' % len(schema.namespaces))
     try:
@@ -1246,7 +1846,7 @@ def run_case(ctx, i, rng):
                 if not src:
                     continue
                 kb = src[0][2]
-                path = CIMInstanceName(schema.classes[cl].name, kb,
+                path = CIMInstanceName(schema.classes[cl].name, copy_kv(kb),
                                        namespace=h.ns_name(nsk))
                 oc, val = call(lambda: h.conn.GetInstance(path))
                 ctx.evaluated()
@@ -1262,6 +1862,8 @@ def run_case(ctx, i, rng):
     sig = tuple(h.sig)
     if h.n_write_ok and h.n_write_rej and h.n_read_after_mut:
         ctx.nontrivial(h64(sig))
+    if h.n_multins_ok:
+        ctx.count('history-with-multins-association')
     ctx.cls('history-len-%d0s' % (len(h.sig) // 10))
     if i % 97 == 0:
         ctx.sample({'schema': schema.describe(), 'history': h.log[:25],
